@@ -33,16 +33,16 @@ def genuine(case):
     """the resume object is well formed and honest: every bad piece is covered by a file the loader must distrust
     (missing / size or mtime differs / saved ~0 ~1 ~2 / no mtime) or is listed as uncertain with an older timestamp"""
     pl, ld, files, rs, bad = parse(case)
-    if rs.get("top") != "m" or rs.get("files") in (None, "none", "notlist"):
+    if rs.get("top") != "m" or rs.get("files") in (None, "none", "notlist", "str", "map", "empty"):
         return False
     es = rs["files"].split(",")
-    if len(es) != len(files) or any(e in ("x",) for e in es):
+    if len(es) != len(files) or any(e in ("x", "xi", "xl") for e in es):
         return False
     total = sum(f[0] for f in files)
     np_ = (total + pl - 1) // pl
     files = [f for f in files]
     unc = []
-    if rs.get("unc", "none") not in ("none",) and rs.get("ts", "none") not in ("none", "str") and int(rs["ts"]) < ld:
+    if rs.get("unc", "none") not in ("none", "V", "L") and rs.get("ts", "none") not in ("none", "str", "L") and int(rs["ts"]) < ld:
         h = rs["unc"]
         if h == "-" or len(h) % 8 != 0:
             return False
@@ -57,7 +57,7 @@ def genuine(case):
         for (l, sz, mt, pad), e, (a, z) in zip(files, es, rng):
             if pad or not (a <= b < z):
                 continue
-            if e in ("n", "s"):
+            if e in ("n", "s", "l", "m"):
                 ok = True
             else:
                 m = int(e)
@@ -66,6 +66,78 @@ def genuine(case):
         if not ok:
             return False
     return True
+
+
+def model_branches(case, full):
+    """which branches of the model's load / load_file / load_bitfield / load_unc a case takes (derived from the case
+    and the implementation's outcome, which equals the model's when the correspondence holds)"""
+    out = set()
+    if not case.startswith("L "):
+        return out
+    pl, ld, files, rs, bad = parse(case)
+    f = dict(t.split("=", 1) for t in full.replace(" || ", " ").split() if "=" in t)
+    out.add("load:" + f.get("out", "?"))
+    if rs.get("top") != "m":
+        out.add("load:top-not-map"); return out
+    fv = rs.get("files")
+    if fv in (None, "none", "notlist", "str", "map"):
+        out.add("load:no-files-list"); return out
+    es = [] if fv == "empty" else fv.split(",")
+    if len(es) != len(files):
+        out.add("load:files-length"); return out
+    if any(e in ("x", "xi", "xl") for e in es):
+        out.add("load:entry-not-map"); return out
+    bf = rs.get("bf", "none")
+    np_ = (sum(x[0] for x in files) + pl - 1) // pl
+    if bf in ("none", "L", "M"):
+        out.add("bitfield:missing-or-wrong-type"); return out
+    if bf[0] == "V":
+        v = int(bf[1:])
+        out.add("bitfield:value-all" if v == np_ else "bitfield:value-zero" if v == 0 else "bitfield:value-other")
+        if v not in (np_, 0):
+            return out
+    else:
+        ok = (len(bf) - 1) // 2 == (np_ + 7) // 8
+        out.add("bitfield:string-ok" if ok else "bitfield:string-wrong-length")
+        if not ok:
+            return out
+    for (l, sz, mt, pad), e in zip(files, es):
+        if pad:
+            out.add("file:padding")
+        elif e in ("n", "s", "l", "m"):
+            out.add("file:no-mtime")
+        else:
+            m = int(e)
+            if m in (M0, M1):
+                out.add("file:~%d-%s" % (-m - 1, "exists" if sz >= 0 else "missing"))
+            elif sz < 0:
+                out.add("file:missing")
+            elif sz != l:
+                out.add("file:size-differs")
+            elif m == M3:
+                out.add("file:~3-kept")
+            elif m == M2:
+                out.add("file:~2")
+            elif m != mt:
+                out.add("file:mtime-differs")
+            else:
+                out.add("file:kept")
+    u, ts = rs.get("unc", "none"), rs.get("ts", "none")
+    if u in ("none", "V", "L"):
+        out.add("unc:none-or-wrong-type")
+    elif ts in ("none", "str", "L"):
+        out.add("unc:no-timestamp")
+    elif int(ts) >= ld:
+        out.add("unc:timestamp-not-older")
+    else:
+        h = "" if u == "-" else u
+        if len(h) % 8:
+            out.add("unc:trailing-bytes")
+        idx = [int(h[i:i + 8], 16) for i in range(0, len(h) - len(h) % 8, 8)]
+        out.add("unc:applied" if idx else "unc:empty")
+        if any(i >= np_ for i in idx):
+            out.add("unc:index-out-of-range")
+    return out
 
 
 def gen_l(r, stats, malformed):
@@ -132,31 +204,42 @@ def gen_l(r, stats, malformed):
     if malformed:
         c = r.random()
         stats["malformed"] += 1
-        if c < 0.10:
+        nb = (np_ + 7) // 8
+        if c < 0.06:
             rs["top"] = "x"
-        elif c < 0.18:
-            rs["files"] = r.choice(["none", "notlist"])
-        elif c < 0.28:
-            rs["files"] = ",".join(es + ["500"]) if r.random() < 0.5 else ",".join(es[:-1]) or "none"
-        elif c < 0.40:
-            k = r.randrange(nf); es2 = list(es); es2[k] = "x"; rs["files"] = ",".join(es2)
-        elif c < 0.52:
-            rs["bf"] = r.choice(["none", "V%d" % (np_ + 1), "V-1", "V3" if np_ != 3 else "V2",
-                                 "S" + "ff" * ((np_ + 7) // 8 + 1), "S" + "ff" * max(0, (np_ + 7) // 8 - 1)])
-        elif c < 0.70:
-            extra = r.choice(["%08x" % np_, "ffffffff", "%08x" % (np_ + 7), "80000000"])
-            base = rs["unc"] if rs["unc"] != "none" else ""
+        elif c < 0.14:
+            rs["files"] = r.choice(["none", "notlist", "str", "map", "empty"])
+        elif c < 0.22:
+            rs["files"] = ",".join(es + ["500"]) if r.random() < 0.5 else ",".join(es[:-1]) or "empty"
+        elif c < 0.34:
+            k = r.randrange(nf); es2 = list(es); es2[k] = r.choice(["x", "xi", "xl"]); rs["files"] = ",".join(es2)
+        elif c < 0.44:
+            # mtime of every wrong type, negative / huge values
+            k = r.randrange(nf); es2 = list(es)
+            es2[k] = r.choice(["s", "l", "m", "n", "-5", "-1000000", "0", "4611686018427387903", "-4611686018427387904",
+                               "9223372036854775807", "-9223372036854775808", "4294967296", str(files[k][2] + 2 ** 32)])
+            rs["files"] = ",".join(es2)
+        elif c < 0.58:
+            # bitfield: every wrong type, counts around n, strings of every length around ceil(n/8)
+            rs["bf"] = r.choice(["none", "L", "M", "V%d" % (np_ + 1), "V%d" % (np_ - 1) if np_ > 1 else "V7", "V-1",
+                                 "V4294967296", "V%d" % (np_ + 2 ** 32), "S"] +
+                                ["S" + bytes(r.randrange(256) for _ in range(n_)).hex() for n_ in range(max(0, nb - 2), nb + 3) if n_ != nb] +
+                                ["S" + "ff" * (nb + 8)])
+        elif c < 0.74:
+            extra = r.choice(["%08x" % np_, "ffffffff", "%08x" % (np_ + 7), "80000000", "fffffffe", "%08x" % (2 ** 31 - 1)])
+            base = rs["unc"] if rs["unc"] not in ("none",) else ""
             rs["unc"] = (extra + base) if r.random() < 0.5 else (base + extra)
             rs["ts"] = str(ld - 1)
-        elif c < 0.80:
-            rs["unc"] = (rs["unc"] if rs["unc"] != "none" else "00000000") + r.choice(["00", "0000", "000001"])
+        elif c < 0.84:
+            # length not a multiple of four: 1, 2, 3 bytes alone or trailing
+            base = r.choice(["", rs["unc"] if rs["unc"] != "none" else "00000000"])
+            rs["unc"] = (base + r.choice(["00", "0000", "000001", "ff", "ffff", "ffffff"])) or "-"
             rs["ts"] = str(ld - 1)
-        elif c < 0.90:
-            rs["ts"] = r.choice(["str", "none", str(ld), str(ld + 5)])
-            if rs["unc"] == "none":
-                rs["unc"] = "00000000"
+        elif c < 0.94:
+            rs["ts"] = r.choice(["str", "L", "none", str(ld), str(ld + 5), "-1", "4294967295", "9223372036854775807", "-9223372036854775808"])
+            rs["unc"] = r.choice([rs["unc"] if rs["unc"] != "none" else "00000000", "V", "L", "00000000"])
         else:
-            rs["bf"] = "S" + "ff" * ((np_ + 7) // 8)      # tail bits set in the saved string
+            rs["bf"] = "S" + "ff" * nb      # padding bits set in the saved string
     else:
         stats["honest"] += 1
     return "L %d %d | %s | %s | %s" % (pl, ld, " ".join(("%d,%d,%d" % f[:3]) + (",p" if f[3] else "") for f in files),
